@@ -295,11 +295,16 @@ mod tests {
 #[cfg(dmntk_verif)]
 impl Workspace {
   /// Verification hook: read-only projection of the workspace state:
-  /// `(namespace, name)` of stored definitions in order, sorted keys of the namespace index,
+  /// `(namespace, name, id)` of stored definitions in order, sorted keys of the namespace index,
   /// sorted keys of the name index and sorted keys of the deployed model evaluators.
   #[allow(clippy::type_complexity)]
-  pub fn verif_snapshot(&self) -> (Vec<(String, String)>, Vec<String>, Vec<String>, Vec<String>) {
-    let stored = self.definitions.iter().map(|d| (d.namespace().to_string(), d.name().to_string())).collect();
+  pub fn verif_snapshot(&self) -> (Vec<(String, String, String)>, Vec<String>, Vec<String>, Vec<String>) {
+    use dmntk_model::model::DmnElement;
+    let stored = self
+      .definitions
+      .iter()
+      .map(|d| (d.namespace().to_string(), d.name().to_string(), d.id().clone().unwrap_or_default()))
+      .collect();
     let mut by_namespace: Vec<String> = self.definitions_by_namespace.keys().cloned().collect();
     by_namespace.sort();
     let mut by_name: Vec<String> = self.definitions_by_name.keys().cloned().collect();
